@@ -93,7 +93,15 @@ pub fn vcdcut(toks: &[&str]) -> String {
     std::fs::File::create(&path).unwrap().write_all(&bytes).unwrap();
     let r = load_with(toks[1], &path, &bytes);
     match parse_dump(&r) {
-        Some(pd) => relation(&pd, &fd, lb),
+        Some(pd) => {
+            let rel = relation(&pd, &fd, lb);
+            // at a line boundary the load must be EXACTLY the waveform of the lines present: report it
+            if rel == "ok" && lb {
+                format!("ok:{}", r)
+            } else {
+                rel
+            }
+        }
         None => r.split(':').next().unwrap().to_string(),
     }
 }
